@@ -34,7 +34,7 @@ ASSUMPTIONS = [
     "omega: the reported numbers are Ritz values of (H-omega)^2 (the optimiser squares the shifted MPO), inverse=-1: of -H; both are handled by taking A = inverse*(H-omega)^2 / inverse*H as the reference operator",
     "complex H (and real H whose MPO tensors are complex) is run from a complex start state (a real Mps cannot hold complex tensors: Matrix asserts); StackedMpo and site swapping are never combined with omega; site swapping only for 2site, general Model, fixed criterion, no Jordan-Wigner strings, requested through CompressConfig entries of the procedure",
     "procedures have >= 2 sweeps (with one sweep optimize_mps has no state to return and trips its own assert)",
-    "Davidson kernel: Ritz values >= exact (slack 1e-9*max(1,||A||)); a pair flagged converged by davidson1 has true residual <= 10*sqrt(tol) + 1e-9*||A|| (the code's own criterion is |de| < tol and |r| < sqrt(tol)) and lies within that residual of an exact eigenvalue; all guesses of one call share a dtype (as in gs.single_sweep)",
+    "Davidson kernel: Ritz values >= exact (slack 1e-9*max(1,||A||)); returned vectors normalised to 1e-6; value == Rayleigh quotient of its vector (1e-8*||A||); a pair flagged converged by davidson1 has true residual <= 10*sqrt(tol) + 1e-9*||A|| (the code's own criterion is |de| < tol and |r| < sqrt(tol)) and lies within that residual of an exact eigenvalue; all guesses of one call share a dtype (as in gs.single_sweep). The Gram matrix of the trial vectors is read through the documented callback hook after every cycle; when a run fails any of these checks and the Gram error exceeded 1e-9 all failures are reported under the one signature trial-subspace-loses-orthonormality",
     "reference matrix assembled like rv.dense.op_dense (own grouping by site, basis.op_mat local matrices) but with scipy.sparse Kronecker products; Hermiticity and sector conservation verified per case; forced direct solver only for prod(d) <= 400; omega with prod(d) > 600 keeps bond limits <= rank + 2 (two-layer environments)",
 ]
 
@@ -809,7 +809,10 @@ def run_chain_case(ctx):
 def kernel_matrix(rng):
     n = int(rng.choice([5, 8, 13, 30, 60, 120, 200, 300]))
     cplx = bool(rng.random() < 0.4)
-    kind = str(rng.choice(["goe", "degenerate", "clustered", "diag-dominant", "block"]))
+    kind = str(rng.choice(["goe", "degenerate", "clustered", "diag-dominant", "nearly-diagonal", "block"],
+                          p=[0.15, 0.15, 0.15, 0.15, 0.28, 0.12]))
+    if kind == "nearly-diagonal":
+        n = int(rng.integers(5, 41))
 
     def rand_unitary(m):
         x = rng.normal(size=(m, m))
@@ -834,9 +837,9 @@ def kernel_matrix(rng):
         q = rand_unitary(n)
         mat = (q * ev) @ q.conj().T
         mat = (mat + mat.conj().T) / 2
-    elif kind == "diag-dominant":
+    elif kind in ("diag-dominant", "nearly-diagonal"):
         d = np.sort(rng.uniform(0, 10, size=n))
-        x = rng.normal(size=(n, n)) * float(rng.choice([0.01, 0.1, 0.3]))
+        x = rng.normal(size=(n, n)) * (0.01 if kind == "nearly-diagonal" else float(rng.choice([0.01, 0.1, 0.3])))
         if cplx:
             x = x + 1j * rng.normal(size=(n, n)) * 0.05
         mat = np.diag(d) + (x + x.conj().T) / 2
@@ -859,12 +862,14 @@ def run_kernel_case(ctx):
     rng = ctx.rng
     ctx.cls("davidson-kernel")
     descs = []
-    for rep in range(int(rng.integers(4, 8))):
+    for rep in range(int(rng.integers(5, 9))):
         mat, kind, cplx = kernel_matrix(rng)
         n = mat.shape[0]
         exact = np.linalg.eigvalsh(mat)
         anorm = float(max(abs(exact[0]), abs(exact[-1]), 1e-300))
         nroots = int(rng.integers(1, min(4, n) + 1))
+        if kind == "nearly-diagonal" and rng.random() < 0.6:
+            nroots = 1            # the regime of the optimiser's ground-state searches: almost exact diagonal preconditioner
         tol = float(10 ** rng.uniform(-12, -6))
         max_cycle = int(rng.choice([50, 100, 200]))
         diag = np.real(np.diag(mat)).copy()
@@ -887,58 +892,91 @@ def run_kernel_case(ctx):
             guesses = guesses[:1]
         use1 = rng.random() < 0.5
         d = {"n": n, "kind": kind, "complex": cplx, "nroots": nroots, "tol": tol, "max_cycle": max_cycle,
-             "entry": "davidson1" if use1 else "davidson", "nguess": len(guesses)}
+             "entry": "davidson1" if use1 else "davidson", "nguess": len(guesses),
+             "precond": "function" if pre < 0.5 else "diagonal-array"}
         descs.append(d)
         ctx.cls("kernel:" + kind, "kernel:complex" if cplx else "kernel:real", f"kernel:nroots{nroots}")
-        aop = lambda x: mat @ x      # noqa: E731
+        # monitor of the kernel's own invariant ("the basis of subspace xs must be orthogonal"): Gram matrix of the trial
+        # vectors at the end of every cycle, through the documented callback hook
+        mon = {"gram": 0.0}
+
+        def callback(envs, mon=mon):
+            xs = np.array([np.asarray(v) for v in envs["xs"]])
+            if len(xs):
+                g = xs.conj() @ xs.T
+                mon["gram"] = max(mon["gram"], float(np.abs(g - np.eye(len(g))).max()))
+
+        def guarded():
+            try:
+                if use1:
+                    return davidson1(lambda vs: [mat @ v for v in vs], [g.copy() for g in guesses], precond, tol=tol,
+                                     max_cycle=max_cycle, nroots=nroots, verbose=0, callback=callback)
+                e_, x_ = davidson_pub(lambda x: mat @ x, [g.copy() for g in guesses], precond, tol=tol,
+                                      max_cycle=max_cycle, nroots=nroots, verbose=0, callback=callback)
+                if nroots == 1:
+                    e_, x_ = [e_], [x_]
+                return None, e_, x_
+            except Exception as exc:  # noqa: BLE001 - attributed below when the subspace had lost orthonormality
+                if mon["gram"] > 1e-9:
+                    return exc
+                raise
+
         env.reseed_global(rng)
-        if use1:
-            conv, e, xs = ctx.lib(davidson1, lambda vs: [mat @ v for v in vs], [g.copy() for g in guesses], precond,
-                                  tol=tol, max_cycle=max_cycle, nroots=nroots, verbose=0, what="davidson1")
-        else:
-            e, xs = ctx.lib(davidson_pub, aop, [g.copy() for g in guesses], precond, tol=tol, max_cycle=max_cycle,
-                            nroots=nroots, verbose=0, what="davidson")
-            conv = None
-            if nroots == 1:
-                e, xs = [e], [xs]
+        out = ctx.lib(guarded, what=d["entry"])
         ctx.count("davidson_kernel_runs")
-        e = np.array(e, dtype=float).reshape(-1)
-        xs = [np.asarray(x) for x in xs]
-        ctx.count("oracle")
-        if not ctx.check(1 <= len(e) <= nroots and len(xs) == len(e) and bool(np.all(np.isfinite(e))),
-                         "davidson-kernel|malformed-result", ne=len(e), nx=len(xs), nroots=nroots):
-            continue
-        es = np.sort(e)
-        invariant = kind == "block"
-        ref = exact
-        bad = [k for k in range(len(es)) if es[k] < ref[k] - 1e-9 * max(1.0, anorm)]
-        ctx.check(not bad, f"davidson-kernel|ritz-value-below-exact|{'complex' if cplx else 'real'}", got=es,
-                  exact=ref[:len(es)], **d)
-        gram_err = 0.0
-        for k, x in enumerate(xs):
+        ctx.metric_max("kernel-max-gram-error", mon["gram"])
+        fails = []
+
+        def chk(ok, sig, **detail):
             ctx.count("oracle")
-            nx = float(np.linalg.norm(x))
-            if not ctx.check(abs(nx - 1) <= 1e-8, "davidson-kernel|vector-not-normalised", norm=nx, **d):
-                continue
-            r = mat @ x - e[k] * x
-            rn = float(np.linalg.norm(r))
-            rq = float(np.real(np.vdot(x, mat @ x)))
-            ctx.check(abs(rq - e[k]) <= 1e-8 * max(1.0, anorm), "davidson-kernel|value-is-not-the-rayleigh-quotient-of-its-vector",
-                      value=e[k], rayleigh=rq, **d)
-            for x2 in xs[:k]:
-                gram_err = max(gram_err, abs(np.vdot(x2, x)))
-            if conv is not None and bool(conv[k]):
-                ctx.cls("kernel:converged")
-                lim = 10 * np.sqrt(tol) + 1e-9 * anorm
-                ctx.check(rn <= lim, "davidson-kernel|converged-pair-has-large-residual", residual=rn, limit=lim, **d)
-                near = float(np.min(np.abs(exact - e[k])))
-                ctx.check(near <= rn + 1e-9 * max(1.0, anorm), "davidson-kernel|converged-value-far-from-spectrum", dist=near,
-                          residual=rn, **d)
-                if not invariant and kind != "degenerate":
-                    ctx.metric_max("kernel-converged-root-vs-exact", abs(es[min(k, len(es) - 1)] - exact[min(k, len(es) - 1)])
-                                   / max(1.0, anorm))
-            elif conv is not None:
-                ctx.cls("kernel:not-converged")
-        ctx.check(gram_err <= 1e-6, "davidson-kernel|vectors-not-orthogonal", overlap=gram_err, **d)
+            if not ok:
+                fails.append((sig, detail))
+            return bool(ok)
+
+        if isinstance(out, Exception):
+            fails.append(("davidson-kernel|crash|" + type(out).__name__, {"message": str(out)[:120]}))
+        else:
+            conv, e, xs = out
+            e = np.array(e, dtype=float).reshape(-1)
+            xs = [np.asarray(x) for x in xs]
+            if chk(1 <= len(e) <= nroots and len(xs) == len(e) and bool(np.all(np.isfinite(e))),
+                   "davidson-kernel|malformed-result", ne=len(e), nx=len(xs)):
+                es = np.sort(e)
+                bad = [k for k in range(len(es)) if es[k] < exact[k] - 1e-9 * max(1.0, anorm)]
+                chk(not bad, f"davidson-kernel|ritz-value-below-exact|{'complex' if cplx else 'real'}", got=es,
+                    exact=exact[:len(es)])
+                gram_err = 0.0
+                for k, x in enumerate(xs):
+                    nx = float(np.linalg.norm(x))
+                    if not chk(abs(nx - 1) <= 1e-6, "davidson-kernel|vector-not-normalised", norm=nx, value=e[k],
+                               flagged_converged=None if conv is None else bool(conv[k])):
+                        continue
+                    r = mat @ x - e[k] * x
+                    rn = float(np.linalg.norm(r))
+                    rq = float(np.real(np.vdot(x, mat @ x)))
+                    chk(abs(rq - e[k]) <= 1e-8 * max(1.0, anorm),
+                        "davidson-kernel|value-is-not-the-rayleigh-quotient-of-its-vector", value=e[k], rayleigh=rq)
+                    for x2 in xs[:k]:
+                        gram_err = max(gram_err, abs(np.vdot(x2, x)))
+                    if conv is not None and bool(conv[k]):
+                        ctx.cls("kernel:converged")
+                        lim = 10 * np.sqrt(tol) + 1e-9 * anorm
+                        chk(rn <= lim, "davidson-kernel|converged-pair-has-large-residual", residual=rn, limit=lim)
+                        near = float(np.min(np.abs(exact - e[k])))
+                        chk(near <= rn + 1e-9 * max(1.0, anorm), "davidson-kernel|converged-value-far-from-spectrum",
+                            dist=near, residual=rn)
+                    elif conv is not None:
+                        ctx.cls("kernel:not-converged")
+                chk(gram_err <= 1e-6, "davidson-kernel|vectors-not-orthogonal", overlap=gram_err)
+        if fails and mon["gram"] > 1e-9:
+            # one mechanism, one signature: everything below follows from a trial basis that is no longer orthonormal
+            ctx.violate("davidson-kernel|trial-subspace-loses-orthonormality", max_gram_error=mon["gram"],
+                        consequences=sorted({f[0] for f in fails}), first=fails[0][1], **d)
+        else:
+            for sig, detail in fails:
+                ctx.violate(sig, **detail, **d)
+            if mon["gram"] > 1e-6:
+                ctx.cls("kernel:orthonormality-lost-without-visible-consequence")
+            ctx.metric_max("kernel-max-gram-error-in-runs-that-passed", mon["gram"])
     ctx.evaluations = max(1, len(descs))
     ctx.describe({"davidson_kernel": descs})
